@@ -66,9 +66,16 @@ func main() {
 	defer cw.Flush()
 	defer iw.Flush()
 	id := 0
+	syncOut := os.Getenv("VERIF_SYNC") != ""
 	emit := func(payload string) {
 		fmt.Fprintf(cw, "%s\t%d\t%s\n", s.name, id, payload)
+		if syncOut { // the case is on disk before it runs: a run killed by the race detector names its case
+			cw.Flush()
+		}
 		fmt.Fprintf(iw, "%d\t%s\n", id, s.run(payload))
+		if syncOut {
+			iw.Flush()
+		}
 		id++
 	}
 	g := newG(*seed)
